@@ -21,7 +21,7 @@ def norm_why(why):
     return why
 
 
-def judge_server(case, obs, out, replay):
+def judge_server(case, obs, out, replay, pid="C06"):
     prop = case["prop"]
     bad = False
     hasfail = -1 in case["h"]
@@ -29,13 +29,13 @@ def judge_server(case, obs, out, replay):
         o = obs[view]
         v = o["verdict"]
         if v == "panic":
-            out.violation("C06:%s:panic" % view, "request body handling panicked: %s" % o["why"][:100], replay)
+            out.violation(pid + ":%s:panic" % view, "request body handling panicked: %s" % o["why"][:100], replay)
             bad = True
             continue
         if v not in prop:
             kind = "accepted-invalid" if v in ("accept", "absent") else "rejected-valid"
             detail = case["par"]["cls"] if v == "accept" else case["par"]["ct"]
-            out.violation("C06:%s:%s:%s" % (view, kind, detail),
+            out.violation(pid + ":%s:%s:%s" % (view, kind, detail),
                           "%s body (%s, Content-Type %s, limit %s, history %s): verdict %s, property allows %s" % (
                               case["par"]["cls"], case.get("enc"), case["par"]["ct"], case["par"]["limit"], case["h"],
                               v, prop), replay)
@@ -44,19 +44,19 @@ def judge_server(case, obs, out, replay):
         if v == "reject":
             why = o["why"]
             if why == "stream" and not hasfail:
-                out.violation("C06:%s:error-kind" % view, "stream error reported although the stream raised none", replay)
+                out.violation(pid + ":%s:error-kind" % view, "stream error reported although the stream raised none", replay)
                 bad = True
             elif why not in ("stream", "InvalidArgument"):
-                out.violation("C06:%s:error-kind:%s" % (view, why),
+                out.violation(pid + ":%s:error-kind:%s" % (view, why),
                               "rejection is neither INVALID_ARGUMENT nor the stream's error: %s" % why, replay)
                 bad = True
         if view == "endpoint":
             want_calls = 1 if v in ("accept", "absent") else 0
             if o["calls"] != want_calls:
-                out.violation("C06:endpoint:handler-calls", "handler invoked %d times for verdict %s" % (o["calls"], v), replay)
+                out.violation(pid + ":endpoint:handler-calls", "handler invoked %d times for verdict %s" % (o["calls"], v), replay)
                 bad = True
         if v == "accept" and o.get("value_ok") is False:
-            out.violation("C06:%s:value" % view, "handler/deserializer received a different value", replay)
+            out.violation(pid + ":%s:value" % view, "handler/deserializer received a different value", replay)
             bad = True
     return bad
 
